@@ -204,6 +204,11 @@ def judge(ctx, text, origin, sample=False):
     ctx.count('verdict.%s-%s' % ('both' if rs == cs else 'ref-' + rs + '/lib', cs))
     if rs == 'borderline':
         return
+    if cs == 'reject' and 'At least one graph object' in str(cerr) and any(ch.isdigit() for ch in text.split(']')[0][-6:] + text):
+        import re as _re
+        if _re.search(r'\[\d', text):
+            ctx.count('lenient.isotope-table-difference')   # all molecules dropped for unknown nuclides: nothing left
+            return
     if cs == 'reject' and 'isotope number' in str(cerr):
         ctx.count('lenient.isotope-table-difference')   # nuclide tables of the two judges differ: C18's subject
         return
